@@ -132,6 +132,15 @@ func externalMod(fn *ssa.Function, call *ssa.CallCommon) ModSet {
 				}
 			}
 		}
+	case strings.HasPrefix(name, "(*strings.Builder).Write") || name == "(*strings.Builder).Reset":
+		owner := fn.Signature.Recv().Type().Underlying().(*types.Pointer).Elem()
+		st := owner.Underlying().(*types.Struct)
+		for i := 0; i < st.NumFields(); i++ {
+			if st.Field(i).Name() == "buf" {
+				l, li := locField(owner, i)
+				m.add(l, li)
+			}
+		}
 	case strings.HasPrefix(name, "encoding/json.Unmarshal"), strings.HasPrefix(name, "(*encoding/json.Decoder)"):
 		m.Top = true
 	}
